@@ -156,6 +156,19 @@ class TimerWorld:
             out = w.dispatch('A', res, 'B')
             if out is not None:
                 raise Mismatch('answer', 'a request is sent in reaction to TEMPORARY_FAILURE where the specification waits for the timer')
+        elif name == 'PeerProbe':
+            b = w.sas('B')[0]
+            keep = b.start_dpd_at
+            b.start_dpd_at = w.now - 1
+            req = w.timer('B', b, 'check_dead_peer_detection_timer')
+            b.start_dpd_at = keep
+            if req is None:
+                raise common.MachineryError('the peer could not send a liveness probe')
+            res = w.dispatch('A', req, 'B')
+            if res is None:
+                raise Mismatch('probe', "the peer's liveness probe is not answered while a request of ours is outstanding")
+            if w.dispatch('B', res, 'A') is not None:
+                raise common.MachineryError('unexpected follow-up to a liveness answer')
         elif name == 'Answer':
             data = self.wire[-1]
             self.wire = []
